@@ -2987,7 +2987,7 @@ def make_ext_modules(I):
 
         cols = [I.iterate(x, st) for x in a]
         rep = k.get("repeat", 1)
-        yield st, st.alloc(ListE([tuple(t) for t in _it.product(*cols, repeat=rep)]))
+        yield st, st.alloc(IterE([tuple(t) for t in _it.product(*cols, repeat=rep)]))
 
     it["product"] = bi("itertools.product", i_product)
 
@@ -2995,7 +2995,7 @@ def make_ext_modules(I):
         out = []
         for x in a:
             out.extend(I.iterate(x, st))
-        yield st, st.alloc(ListE(out))
+        yield st, st.alloc(IterE(out))
 
     it["chain"] = bi("itertools.chain", i_chain)
 
@@ -3015,7 +3015,7 @@ def make_ext_modules(I):
         if len(a) == 4 and a[3] == 0:
             yield st, exc("ValueError", "Step for islice() must be a positive integer or None.")
             return
-        yield st, st.alloc(ListE(list(_it.islice(I.iterate(a[0], st), *a[1:]))))
+        yield st, st.alloc(IterE(list(_it.islice(I.iterate(a[0], st), *a[1:]))))
 
     it["islice"] = bi("itertools.islice", i_islice)
 
@@ -3023,7 +3023,7 @@ def make_ext_modules(I):
         import itertools as _it
 
         cols = [I.iterate(x, st) for x in a]
-        yield st, st.alloc(ListE([tuple(t) for t in _it.zip_longest(*cols, fillvalue=k.get("fillvalue"))]))
+        yield st, st.alloc(IterE([tuple(t) for t in _it.zip_longest(*cols, fillvalue=k.get("fillvalue"))]))
 
     it["zip_longest"] = bi("itertools.zip_longest", i_zip_longest)
     E["itertools"] = it
